@@ -38,4 +38,5 @@ S.bounded('reproducibility', ['C14'], _run('reproducibility'))
 S.bounded('jit_differential', ['C15', 'C01', 'C05'], _run('jit_differential'))
 S.bounded('readonly_inputs', ['C19'], _run('readonly_inputs'))
 S.bounded('fault_injection', ['C20'], _run('fault_injection'))
-S.bounded('phase_trace', ['C09', 'C12', 'C13', 'C16'], _run('phase_trace'))
+S.bounded('forms_equivalence', ['C18'], _run('forms_equivalence'))
+S.bounded('phase_trace', ['C03', 'C09', 'C12', 'C13', 'C16'], _run('phase_trace'))
